@@ -172,6 +172,18 @@ class NpShim:
         return _np.asarray(obj, dtype, *a, **k)
 
     @staticmethod
+    def asanyarray(obj, dtype=None, *a, **k):
+        if (dtype is None or dtype is float) and _has_sym(obj):
+            return NpShim.asarray(obj, dtype)
+        return _np.asanyarray(obj, dtype, *a, **k)
+
+    @staticmethod
+    def ascontiguousarray(obj, dtype=None, *a, **k):
+        if (dtype is None or dtype is float) and _has_sym(obj):
+            return _np.ascontiguousarray(NpShim.asarray(obj, dtype))
+        return _np.ascontiguousarray(obj, dtype, *a, **k)
+
+    @staticmethod
     def zeros(shape, dtype=None, *a, **k):
         r = _np.zeros(shape, dtype if dtype is not None else float, *a, **k)
         return _to_obj(r) if dtype in (None, float) else r
